@@ -205,6 +205,32 @@ def r2_mirror(ctx, rep):
                py.nloc(ifn))
 
 
+PROJECT_WIDE = [("ModuleGraph", "UsesGraph"), ("TypeGraph", "InheritsGraph"), ("CallGraph", "CallsGraph"), ("FileGraph", "EfferentGraph")]
+
+
+def r8_project_graph_orientation(ctx, rep):
+    """a project-wide graph draws the same relation as the per-entity 'forward' graph of its family, with the same
+    orientation (from an entity to what it depends on - what all four legends say); sibling agreement"""
+    py = ctx.py
+    for g, f in PROJECT_WIDE:
+        gfn, grel = loop_relations(py, g)
+        _ffn, frel = loop_relations(py, f)
+        fmap = {r: o for r, o, _, _ in frel}
+        shared = 0
+        for r, o, node, _top in grel:
+            if r not in fmap:
+                continue
+            shared += 1
+            ok = o == fmap[r]
+            rep.ob(f"{g}.add_node relation={r}: oriented like {f}", ok,
+                   f"both draw node -> {r} member" if ok else
+                   f"{g} draws the `{r}` edge {'member -> node' if o == 'in' else o} while {f} (and the legend both share) draws it "
+                   f"node -> member: the project-wide graph shows the inverse relation (arrows from a dependency to its dependent)",
+                   py.nloc(node), nontrivial=not ok)
+        if not shared:
+            raise AnalysisError(f"{g} and {f} iterate no common relation")
+
+
 def graph_classes(py) -> List[str]:
     return [c for c in py.subclasses("FortranGraph") if "add_node" in py.classes[c].methods]
 
@@ -394,5 +420,6 @@ RULES = [
     RuleSpec("C13.R3", r3_edges, "edge endpoints are nodes of the same hop; edges unconditional", floor=12),
     RuleSpec("C13.R4", r4_optout, "graph opt-out, per-entity creation and limits", floor=8),
     RuleSpec("C13.R5", r5_sorted_emission, "sorted iteration wherever nodes/edges are emitted", floor=10),
+    RuleSpec("C13.R8", r8_project_graph_orientation, "project-wide graphs are oriented like the per-entity graphs", floor=4),
     RuleSpec("C13.R7", r7_alias, "a saved alias of a component list is not mutated in place", floor=1),
 ]
